@@ -187,3 +187,138 @@ package decoration
 //@   loop#1 decreases len(a) - i
 //@   loop#1 unfold forall s Str :: countIn(heap[string], a, i, s)
 //@   loop#1 use forall s Str :: {countIn(heap[string], a, i - 1, s)} countIn_frame(at(loop1, heap[string]), heap[string], a, i - 1, s)
+
+//@ -- complete(d): every string a render consults is non-empty (what Populate establishes); C03's "complete decoration"
+//@ pred complete(d Decoration) = d.CrossPiece != "" && d.HOuter != "" && d.HRule != "" && d.VHeader != "" && d.VBodyBorder != "" && d.VBodyInner != "" && d.TopLeft != "" && d.TopRight != "" && d.BottomLeft != "" && d.BottomRight != "" && d.LeftBodyRule != "" && d.RightBodyRule != "" && d.HTopDown != "" && d.BTopDown != "" && d.BBottomUp != "" && d.HBCross != "" && d.HBLeft != "" && d.HBRight != ""
+
+//@ -- Populate fills every empty field from its documented source, in dependency order. It works by reflection
+//@ -- (reflect.Value.FieldByName/Set), outside the verified subset: the contract is ASSUMED for callers and checked
+//@ -- against the real function by the bounded stand-in /verif/standins/decoration/populate_test.go (all
+//@ -- emptiness patterns of the fields; DESIGN.md).
+//@ func (*Decoration).Populate
+//@   trusted
+//@   tags C03
+//@   requires d != nil
+//@   assigns d.Horizontal, d.Vertical, d.CrossPiece, d.TopDown, d.VBorder, d.HOuter, d.HRule, d.VHeader, d.VBodyBorder, d.VBodyInner, d.TopLeft, d.TopRight, d.BottomLeft, d.BottomRight, d.LeftBodyRule, d.RightBodyRule, d.HTopDown, d.BTopDown, d.BBottomUp, d.HBCross, d.HBLeft, d.HBRight
+//@   ensures d.Horizontal == (old(d.Horizontal) != "" ? old(d.Horizontal) : "H")
+//@   ensures d.Vertical == (old(d.Vertical) != "" ? old(d.Vertical) : "V")
+//@   ensures d.CrossPiece == (old(d.CrossPiece) != "" ? old(d.CrossPiece) : "X")
+//@   ensures d.TopDown == (old(d.TopDown) != "" ? old(d.TopDown) : d.CrossPiece)
+//@   ensures d.VBorder == (old(d.VBorder) != "" ? old(d.VBorder) : d.Vertical)
+//@   ensures d.HOuter == (old(d.HOuter) != "" ? old(d.HOuter) : d.Horizontal)
+//@   ensures d.HRule == (old(d.HRule) != "" ? old(d.HRule) : d.Horizontal)
+//@   ensures d.VHeader == (old(d.VHeader) != "" ? old(d.VHeader) : d.VBorder)
+//@   ensures d.VBodyBorder == (old(d.VBodyBorder) != "" ? old(d.VBodyBorder) : d.VBorder)
+//@   ensures d.VBodyInner == (old(d.VBodyInner) != "" ? old(d.VBodyInner) : d.Vertical)
+//@   ensures d.TopLeft == (old(d.TopLeft) != "" ? old(d.TopLeft) : d.CrossPiece)
+//@   ensures d.TopRight == (old(d.TopRight) != "" ? old(d.TopRight) : d.CrossPiece)
+//@   ensures d.BottomLeft == (old(d.BottomLeft) != "" ? old(d.BottomLeft) : d.CrossPiece)
+//@   ensures d.BottomRight == (old(d.BottomRight) != "" ? old(d.BottomRight) : d.CrossPiece)
+//@   ensures d.LeftBodyRule == (old(d.LeftBodyRule) != "" ? old(d.LeftBodyRule) : d.CrossPiece)
+//@   ensures d.RightBodyRule == (old(d.RightBodyRule) != "" ? old(d.RightBodyRule) : d.CrossPiece)
+//@   ensures d.HTopDown == (old(d.HTopDown) != "" ? old(d.HTopDown) : d.TopDown)
+//@   ensures d.BTopDown == (old(d.BTopDown) != "" ? old(d.BTopDown) : d.TopDown)
+//@   ensures d.BBottomUp == (old(d.BBottomUp) != "" ? old(d.BBottomUp) : d.CrossPiece)
+//@   ensures d.HBCross == (old(d.HBCross) != "" ? old(d.HBCross) : d.CrossPiece)
+//@   ensures d.HBLeft == (old(d.HBLeft) != "" ? old(d.HBLeft) : d.LeftBodyRule)
+//@   ensures d.HBRight == (old(d.HBRight) != "" ? old(d.HBRight) : d.RightBodyRule)
+//@   ensures d.isBoxless == old(d.isBoxless)
+
+//@ lemma populate_completes(a Decoration, d Decoration)
+//@   tags C03
+//@   requires d.Horizontal != "" && d.Vertical != "" && d.CrossPiece != ""
+//@   requires d.TopDown == (a.TopDown != "" ? a.TopDown : d.CrossPiece)
+//@   requires d.VBorder == (a.VBorder != "" ? a.VBorder : d.Vertical)
+//@   requires d.HOuter == (a.HOuter != "" ? a.HOuter : d.Horizontal)
+//@   requires d.HRule == (a.HRule != "" ? a.HRule : d.Horizontal)
+//@   requires d.VHeader == (a.VHeader != "" ? a.VHeader : d.VBorder)
+//@   requires d.VBodyBorder == (a.VBodyBorder != "" ? a.VBodyBorder : d.VBorder)
+//@   requires d.VBodyInner == (a.VBodyInner != "" ? a.VBodyInner : d.Vertical)
+//@   requires d.TopLeft == (a.TopLeft != "" ? a.TopLeft : d.CrossPiece)
+//@   requires d.TopRight == (a.TopRight != "" ? a.TopRight : d.CrossPiece)
+//@   requires d.BottomLeft == (a.BottomLeft != "" ? a.BottomLeft : d.CrossPiece)
+//@   requires d.BottomRight == (a.BottomRight != "" ? a.BottomRight : d.CrossPiece)
+//@   requires d.LeftBodyRule == (a.LeftBodyRule != "" ? a.LeftBodyRule : d.CrossPiece)
+//@   requires d.RightBodyRule == (a.RightBodyRule != "" ? a.RightBodyRule : d.CrossPiece)
+//@   requires d.HTopDown == (a.HTopDown != "" ? a.HTopDown : d.TopDown)
+//@   requires d.BTopDown == (a.BTopDown != "" ? a.BTopDown : d.TopDown)
+//@   requires d.BBottomUp == (a.BBottomUp != "" ? a.BBottomUp : d.CrossPiece)
+//@   requires d.HBCross == (a.HBCross != "" ? a.HBCross : d.CrossPiece)
+//@   requires d.HBLeft == (a.HBLeft != "" ? a.HBLeft : d.LeftBodyRule)
+//@   requires d.HBRight == (a.HBRight != "" ? a.HBRight : d.RightBodyRule)
+//@   ensures [populated-decoration-is-complete] complete(d) @C03
+
+//@ func ASCIIBoxSimple
+//@   tags C03,C17,C09
+//@   assigns nothing
+//@   ensures [built-in-is-complete] complete(result) && !result.isBoxless @C03
+
+//@ func UTF8BoxLight
+//@   tags C03,C17,C09
+//@   assigns nothing
+//@   ensures [built-in-is-complete] complete(result) && !result.isBoxless @C03
+
+//@ func UTF8BoxLightCurved
+//@   tags C03,C17,C09
+//@   assigns nothing
+//@   ensures [built-in-is-complete] complete(result) && !result.isBoxless @C03
+
+//@ func UTF8BoxHeavy
+//@   tags C03,C17,C09
+//@   assigns nothing
+//@   ensures [built-in-is-complete] complete(result) && !result.isBoxless @C03
+
+//@ func UTF8BoxDouble
+//@   tags C03,C17,C09
+//@   assigns nothing
+//@   ensures [built-in-is-complete] complete(result) && !result.isBoxless @C03
+
+//@ func NoBox
+//@   tags C03,C17,C09
+//@   assigns nothing
+//@   ensures [boxless-is-not-the-empty-decoration] result.isBoxless && result != EmptyDecoration @C17
+
+//@ func init#2
+//@   tags C17,C09
+//@   requires !lockHeld && registry.table != nil
+//@   assigns mapof(registry.table), ghost lockHeld
+//@   ensures [built-in-registered] !lockHeld && has(registry.table, D_ASCII_SIMPLE) && registry.table != nil @C17
+//@   ensures [earlier-names-kept] forall k Str :: {has(registry.table, k)} old(has(registry.table, k)) ==> has(registry.table, k) @C17
+
+//@ func init#3
+//@   tags C17,C09
+//@   requires !lockHeld && registry.table != nil
+//@   assigns mapof(registry.table), ghost lockHeld
+//@   ensures [built-in-registered] !lockHeld && has(registry.table, D_NONE) && registry.table != nil @C17
+//@   ensures [earlier-names-kept] forall k Str :: {has(registry.table, k)} old(has(registry.table, k)) ==> has(registry.table, k) @C17
+
+//@ func init#4
+//@   tags C17,C09
+//@   requires !lockHeld && registry.table != nil
+//@   assigns mapof(registry.table), ghost lockHeld
+//@   ensures [built-in-registered] !lockHeld && has(registry.table, D_UTF8_LIGHT) && registry.table != nil @C17
+//@   ensures [earlier-names-kept] forall k Str :: {has(registry.table, k)} old(has(registry.table, k)) ==> has(registry.table, k) @C17
+
+//@ func init#5
+//@   tags C17,C09
+//@   requires !lockHeld && registry.table != nil
+//@   assigns mapof(registry.table), ghost lockHeld
+//@   ensures [built-in-registered] !lockHeld && has(registry.table, D_UTF8_LIGHT_CURVED) && registry.table != nil @C17
+//@   ensures [earlier-names-kept] forall k Str :: {has(registry.table, k)} old(has(registry.table, k)) ==> has(registry.table, k) @C17
+
+//@ func init#6
+//@   tags C17,C09
+//@   requires !lockHeld && registry.table != nil
+//@   assigns mapof(registry.table), ghost lockHeld
+//@   ensures [built-in-registered] !lockHeld && has(registry.table, D_UTF8_HEAVY) && registry.table != nil @C17
+//@   ensures [earlier-names-kept] forall k Str :: {has(registry.table, k)} old(has(registry.table, k)) ==> has(registry.table, k) @C17
+
+//@ func init#7
+//@   tags C17,C09
+//@   requires !lockHeld && registry.table != nil
+//@   assigns mapof(registry.table), ghost lockHeld
+//@   ensures [built-in-registered] !lockHeld && has(registry.table, D_UTF8_DOUBLE) && registry.table != nil @C17
+//@   ensures [earlier-names-kept] forall k Str :: {has(registry.table, k)} old(has(registry.table, k)) ==> has(registry.table, k) @C17
+
+//@ -- the empty decoration is the zero value (nobody assigns the exported variable: C16 store scan)
+//@ globalinv !EmptyDecoration.isBoxless && EmptyDecoration.Horizontal == "" && EmptyDecoration.Vertical == "" && EmptyDecoration.CrossPiece == "" && EmptyDecoration.TopDown == "" && EmptyDecoration.VBorder == "" && EmptyDecoration.HOuter == "" && EmptyDecoration.HRule == "" && EmptyDecoration.VHeader == "" && EmptyDecoration.VBodyBorder == "" && EmptyDecoration.VBodyInner == "" && EmptyDecoration.TopLeft == "" && EmptyDecoration.TopRight == "" && EmptyDecoration.BottomLeft == "" && EmptyDecoration.BottomRight == "" && EmptyDecoration.LeftBodyRule == "" && EmptyDecoration.RightBodyRule == "" && EmptyDecoration.HTopDown == "" && EmptyDecoration.BTopDown == "" && EmptyDecoration.BBottomUp == "" && EmptyDecoration.HBCross == "" && EmptyDecoration.HBLeft == "" && EmptyDecoration.HBRight == "" @C17
